@@ -152,7 +152,7 @@ def run(ctx):
     exh("local", "1.1.1.2.1.1.1.1.0.1.0", "c0+s0", "-", "core", L, nsh)
     # channel reuse: preallocation override 1..2 (the channel is reused at once), and the real channel count behind
     # a prologue that leaves a response queued in channel 0 and brings channel 0 back to the front
-    exh("local", "1.1.2.2.2.1.1.0.0.0.2", "c0+s0", "-", "reuse", L + 1, 8 if not th else 16)
+    exh("local", "1.1.2.2.2.1.1.0.0.0.2", "c0+s0", "-", "reuse", L + 1 if th else L, 8 if not th else 16)
     exh("local", "1.1.1.1.1.1.1.0.1.1.2", "c0+s0", "-", "reuse", L, nsh)
     exh("ipc", "2.1.2.1.2.1.1.0.0.0.1", "c0+s0", "-", "reuse", LI, nsh)
     exh("local", "1.1.2.1.2.1.1.0.0.0.0", "c0+s0", "q_0+sr_0+as_0+pd_0+qd_0+qd_0", "reuse", L, nsh)
@@ -162,7 +162,7 @@ def run(ctx):
     exh("local", "2.2.1.1.2.1.1.0.0.0.0", "c0+s0", "-", "loan", LI, nsh)
     exh("local", "1.1.1.1.1.1.1.1.0.0.0", "c0+s0", "-", "loan", LI, nsh)
     # port life cycle, two clients, two servers
-    exh("local", "1.1.1.1.1.1.2.0.0.0.0", "c0+s0", "-", "ports", L + 1, 8 if not th else 16)
+    exh("local", "1.1.1.1.1.1.2.0.0.0.0", "c0+s0", "-", "ports", L + 1 if th else L, 8 if not th else 16)
     exh("ipc", "1.1.1.1.1.1.1.0.0.1.0", "c0+s0", "-", "ports", LI, nsh)
     exh("local", "1.1.1.1.1.2.2.0.0.1.0", "c0+c1+s0", "-", "c2", L, nsh)
     exh("local", "2.1.1.1.1.1.2.1.0.0.0", "c0+c1+s0", "-", "c2", L, nsh)
@@ -259,13 +259,41 @@ def run(ctx):
                        "how_to_rerun": cmd + " | " + driver}, key=key)
         if len(ctx.violations) >= 5:
             break
+    if model_mm and not [m for m in spec_mm if classify(m[2]) is None]:
+        # SEARCH phase: the tie broke but the oracle saw no (new) violation.  Re-run the harness around the diverging
+        # configurations: saturating / draining random histories with other seeds over the full alphabet, and the
+        # core / reuse alphabets one operation longer, oracle only.
+        cfgs = []
+        for lbl, cmd, line in model_mm:
+            a = cmd.split()
+            if len(a) > 3 and (a[2], a[3]) not in cfgs:
+                cfgs.append((a[2], a[3]))
+        sjobs = []
+        for variant, cfg in cfgs[:3]:
+            for i in range(4):
+                sjobs.append(("search:rnd:%s:%s:%d" % (variant, cfg, i),
+                              [exe, "rnd", "local", cfg, "c0+c1+s0+s1", "-", "full", "300", str(i), "4", str(ctx.seed + 7919), "120"]))
+            for alpha in ("core", "reuse", "loan"):
+                for i in range(4):
+                    sjobs.append(("search:exh:%s:%s:%d" % (cfg, alpha, i), [exe, "exh", "local", cfg, "c0+s0", "-", alpha, str(L + 1), str(i), "4", seed]))
+        sr = vlib.run_pipelines(sjobs, driver)
+        cleanup()
+        ctx.cov["search_phase"] = {"jobs": len(sjobs), "cases": sr["cases"], "spec_mismatches": sr["mismatches_spec"]}
+        found = [m for m in sr["mismatch_lines"] if "kind=spec" in m[2] and classify(m[2]) is None]
+        for lbl, cmd, line in found[:1]:
+            case_no = int(line.split("case=")[1].split()[0])
+            hist = vlib.extract_case(cmd.split(), driver, case_no)
+            op_no = int(line.split("op=")[1].split()[0])
+            ctx.violation("search after a broken correspondence found a history that violates the property: " + line[:300],
+                          {"history": [h[:200] for h in hist[:op_no + 2]], "harness_cmd": cmd, "mismatch": line[:600],
+                           "how_to_rerun": cmd + " | " + driver})
     if model_mm:
         lbl, cmd, line = model_mm[0]
         case_no = int(line.split("case=")[1].split()[0])
         hist = vlib.extract_case(cmd.split(), driver, case_no)
         ctx.violation("correspondence model<->implementation broken (no polling order makes the concrete model agree): " + line[:300],
                       {"obligation": "G3 correspondence of model/ReqRes.v with iceoryx2/src/port/{client,server}.rs", "history": [h[:200] for h in hist[:60]],
-                       "harness_cmd": cmd, "mismatches": len(model_mm)}, no_input=True)
+                       "harness_cmd": cmd, "mismatches": len(model_mm)}, no_input=not [v for v in ctx.violations if not v.get("no_input")])
     if not proof_ok and not ctx.violations:
         ctx.violation("proof obligation no longer checks: %s" % ctx.broken,
                       {"broken": ctx.broken, "searched": "all histories above agree with the reference specification"}, no_input=True)
